@@ -238,7 +238,11 @@ Definition exec_op (cx : ctx) (o : opc) (imms : list imm) (stk : list value) (st
         OOk r (set_local st (local_del (s_local st) a k) (ELDel a k))
     | (O_app_global_get | O_app_global_get_ex | O_app_global_put | O_app_global_del
       | O_app_local_get | O_app_local_get_ex | O_app_local_put | O_app_local_del), _, _ => OFail
-    | O_log, _, VB b :: r => OOk r (add_event st (ELog b))
+    | O_log, _, VB b :: r =>
+        (* at most 32 log calls and 1024 logged bytes per application call *)
+        let logs := flat_map (fun e => match e with ELog x => [x] | _ => [] end) (s_trace st) in
+        if (Nat.ltb (List.length logs) 32) && (fold_left (fun acc x => acc + blen x) logs 0 + blen b <=? 1024)
+        then OOk r (add_event st (ELog b)) else OFail
     | O_log, _, _ => OFail
     (* boxes *)
     | O_box_put, _, VB v :: VB k :: r =>
